@@ -8,6 +8,11 @@ HOOK_COMMITS = ["204cfe3", "2edc694", "e1d8638"]
 
 # id -> (category, technique, level text, level note, design ref)
 CHECKS = {
+ "C18": ("exploration",
+         "hostile-input monitoring of every bundled analyzer, tokenizer, token filter configuration and char filter in child processes (panic capture, progress watchdog) with token-stream oracles (determinism, position increments, offset ranges, tokenizer slice equality) and an index/search round trip",
+         "Script-aware and byte-level generators feed all 24 analyzers, 8 tokenizers, ~75 filter configurations (fed synthetic token streams directly, including invalid UTF-8, empty and one-rune tokens) and 5 char filters; every output is checked for the stated token invariants, two runs must agree, and every fourth tokenised text is indexed and must be found by a match query requiring all of its own terms. Held on the inputs explored.",
+         "Trusts: child-process observation; the analyzer's own CharFilters define 'the text the tokenizer saw'. The round trip hands the field its own copy of the bytes (token filters rewrite terms in place).",
+         "DESIGN.md §4 C18"),
  "C20": ("exploration",
          "runtime oracle re-parsing real highlighter output (markup, escaping, separators) against the stored text and the term locations of real searches; adversarial location maps and invalid texts in child processes for the no-panic clause",
          "Generated valid UTF-8 texts are indexed with four bundled analyzers (cjk for overlapping occurrences), searched with locations and highlighted with fragment sizes 1..300, 0..5 fragments and both formatters; each fragment must de-mark/unescape to a contiguous slice of the text, every mark must be one occurrence or a run of overlapping ones, fragments must be placeable without overlap, at most num, and the best one must hold a match when one fits. Hostile location maps (negative, inverted, out of range, unsorted) and invalid texts must not kill a child. Held on the inputs explored.",
